@@ -811,6 +811,42 @@ func c17Regain(tier string, seed int64, idx int, scratch string) rt.CaseResult {
 	cycles := tierN(tier, 3, 5)
 	lastRegained := map[string]int{}
 	for cycle := 0; cycle < cycles; cycle++ {
+		// "every root always offers a directory to write to" - also after the creation of a new
+		// directory has failed once: one injected mkdir failure per cycle (the write that hits it
+		// fails), after which every write must succeed again
+		if cycle > 0 && eo.Mode == dbx.Inline {
+			fired := false
+			verif.SetOpFault(func(op, path string) error {
+				if op == "os.mkdirall" && !fired {
+					fired = true
+					return fmt.Errorf("injected mkdir failure")
+				}
+				return nil
+			})
+			faultKeys := 0
+			for i := 0; i < 3*eff && !fired; i++ { // until a directory is replaced
+				k := fmt.Sprintf("fk%d-%d", cycle, i)
+				err := r.Env.DB.Set(ctxBg, k, []byte("x"))
+				if err == nil {
+					r.M.Write(refmodel.Autocommit, k, "x", false)
+					faultKeys++
+					nk++
+				}
+			}
+			verif.SetOpFault(nil)
+			if fired {
+				for i := 0; i < 5; i++ {
+					k := fmt.Sprintf("after-fault%d-%d", cycle, i)
+					if err := r.Env.DB.Set(ctxBg, k, []byte("y")); err != nil {
+						c.Violate("root-offers-no-directory after-mkdir-failure", fmt.Sprintf("cycle %d: the creation of a directory failed once (injected); the write %d after it still fails: %v", cycle, i, err), replay)
+						return c
+					}
+					r.M.Write(refmodel.Autocommit, k, "y", false)
+					nk++
+				}
+				c.Count("mkdir_faults_survived", 1)
+			}
+		}
 		// a file from Create that stays open (nothing written yet) while the directories fill up
 		// and rotate; it is written and closed after the fill
 		filesBefore, _, _ := r.Env.Walk(false)
